@@ -112,6 +112,7 @@ type Script struct {
 	NoSG        bool // do not advertise SERVICE_GENERATOR
 	Steps       [nSteps]Action
 	ExitStatus  int
+	ModSuffix   string // the root Thrift file's path below the sandbox, e.g. "/thrift/a/root.thrift"
 	ByteWrites  bool // reply in 1-byte writes
 	Helper      bool // the plugin starts a daemon that inherits its stderr and outlives it
 	// generate reply
@@ -119,7 +120,12 @@ type Script struct {
 	GenErr bool // conforming: the generator returns an error
 }
 
+// A GenFile with Dyn set is placed by the plugin where a well-behaved generator puts its
+// files: in the Directory the request gives for the module of the root Thrift file
+// (ModSuffix identifies that module); Path then holds the path this must come to.
 type GenFile struct {
+	Dyn  bool
+	Base string
 	Path    string
 	Content string
 }
@@ -554,7 +560,23 @@ func buildReply(sc *Script, st Step, k ActKind, req ref.Envelope) []byte {
 	case StepGenerate:
 		var kv []ref.Val
 		for _, f := range sc.Files {
-			kv = append(kv, ref.Str(f.Path), ref.Bin([]byte(f.Content)))
+			pth := f.Path
+			if f.Dyn {
+				pth = "no-such-module/" + f.Base
+				if mods, ok := req.Body.Get(1); ok { // args struct: field 1 = the request
+					if mm, ok := mods.Get(3); ok { // modules
+						for i := 0; i+1 < len(mm.Items); i += 2 {
+							m := mm.Items[i+1]
+							tp, _ := m.Get(3)
+							dir, _ := m.Get(2)
+							if strings.HasSuffix(string(tp.B), sc.ModSuffix) {
+								pth = string(dir.B) + "/" + f.Base
+							}
+						}
+					}
+				}
+			}
+			kv = append(kv, ref.Str(pth), ref.Bin([]byte(f.Content)))
 		}
 		fs := []ref.Field{ref.F(1, ref.Map(ref.TBinary, ref.TBinary, kv...))}
 		if k == ActOKExtra {
